@@ -193,6 +193,8 @@ const (
 	fProbe   = 512
 	fBatch   = 1024
 	fRemove  = 2048
+	fMulti   = 4096
+	fQuiet   = 8192
 )
 
 // request kinds of HarnessWorld
@@ -230,9 +232,9 @@ func init() {
 	register(&CheckSpec{ID: "C01", Patterns: []string{pkgServer},
 		Jobs: func(tier string) []*JobCfg {
 			if tier == "thorough" {
-				return []*JobCfg{pipe(1, 1, 6, allKinds), pipe(1, 2, 10, allKinds), pipe(1, 3, 9, kG|kM|kP|kU|kQ), world(1, 2, 0, 9, kG|kM, fBackErr), world(1, 2, 0, 9, kG|kM|kP, fSplit), world(1, 1, 1, 8, kG|kM|kP, 0), worldO(1, 2, 0, 8, kM|kP, 0), world(1, 2, 0, 8, allKinds, fWide), world(1, 3, 0, 8, allKinds, fBatch)}
+				return []*JobCfg{pipe(1, 1, 6, allKinds), pipe(1, 2, 10, allKinds), pipe(1, 3, 9, kG|kM|kP|kU|kQ), world(1, 2, 0, 9, kG|kM, fBackErr), world(1, 2, 0, 9, kG|kM|kP, fSplit), world(1, 1, 1, 8, kG|kM|kP, 0), worldO(1, 2, 0, 8, kM|kP, 0), world(1, 2, 0, 8, allKinds, fWide), world(1, 3, 0, 8, allKinds, fBatch), world(1, 2, 1, 8, kG|kM|kP, fMulti|fBatch), noMapOrder(job(pkgServer, "HarnessBig", 0, 5000, 20, 256)), noMapOrder(job(pkgServer, "HarnessBig", 0, 17000, 30, 32768)), noMapOrder(job(pkgServer, "HarnessBig", 0, 17000, 17000, 256)), noMapOrder(job(pkgServer, "HarnessBig", 0, 70000, 5000, 65536))}
 			}
-			return []*JobCfg{pipe(1, 1, 6, allKinds), pipe(1, 2, 8, allKinds), world(1, 2, 0, 7, kG|kM, fBackErr), world(1, 2, 0, 7, kG|kP, fSplit), pipe(1, 3, 6, kG|kP|kQ), world(1, 3, 0, 6, kG|kM|kP|kU, fBatch)}
+			return []*JobCfg{pipe(1, 1, 6, allKinds), pipe(1, 2, 8, allKinds), world(1, 2, 0, 7, kG|kM, fBackErr), world(1, 2, 0, 7, kG|kP, fSplit), pipe(1, 3, 6, kG|kP|kQ), world(1, 3, 0, 6, kG|kM|kP|kU, fBatch), world(1, 2, 1, 6, kG|kM, fMulti|fBatch), noMapOrder(job(pkgServer, "HarnessBig", 0, 5000, 20, 256)), noMapOrder(job(pkgServer, "HarnessBig", 0, 17000, 30, 32768))}
 		},
 		Bounds: func(tier string) string {
 			return "pipelines of 1..3 requests, each of a solver-chosen kind (GET, SET, two-key MGET over one or two nodes, PING, unknown command, wrong arity, QUIT last) with solver-chosen key bytes/owner, every schedule of up to 8 (quick) / 9 (thorough) events; thorough adds a second concurrent client"
@@ -242,9 +244,9 @@ func init() {
 	register(&CheckSpec{ID: "C09", Patterns: []string{pkgServer},
 		Jobs: func(tier string) []*JobCfg {
 			if tier == "thorough" {
-				return []*JobCfg{pipe(9, 2, 10, allKinds), pipe(9, 3, 9, kG|kM|kP), world(9, 3, 0, 9, kG|kM, fSplit), world(9, 2, 1, 8, kG|kM, 0), world(9, 2, 0, 8, kG|kM, fSplit|fBackErr), world(9, 3, 0, 8, kG|kM|kP, fBatch|fSplit)}
+				return []*JobCfg{pipe(9, 2, 10, allKinds), pipe(9, 3, 9, kG|kM|kP), world(9, 3, 0, 9, kG|kM, fSplit), world(9, 2, 1, 8, kG|kM, 0), world(9, 2, 0, 8, kG|kM, fSplit|fBackErr), world(9, 3, 0, 8, kG|kM|kP, fBatch|fSplit), world(9, 2, 1, 8, kG|kM, fMulti|fBatch), world(9, 3, 1, 7, kG|kM, fMulti|fBatch)}
 			}
-			return []*JobCfg{pipe(9, 2, 8, allKinds), world(9, 2, 0, 7, kG|kM, fSplit), world(9, 3, 0, 7, kG, fSplit), world(9, 3, 0, 6, kG|kM, fBatch)}
+			return []*JobCfg{pipe(9, 2, 8, allKinds), world(9, 2, 0, 7, kG|kM, fSplit), world(9, 3, 0, 7, kG, fSplit), world(9, 3, 0, 6, kG|kM, fBatch), world(9, 2, 1, 6, kG|kM, fMulti|fBatch)}
 		},
 		Bounds: func(tier string) string {
 			return "liveness reduced to a one-step progress obligation: after EVERY backend-reply event in every schedule (2..3 requests, <= 8/9 events) no completed request is left at the head of the client's queue, i.e. the longest completed prefix has been written"
@@ -266,9 +268,9 @@ func init() {
 	register(&CheckSpec{ID: "C03", Patterns: []string{pkgServer},
 		Jobs: func(tier string) []*JobCfg {
 			if tier == "thorough" {
-				return []*JobCfg{world(3, 1, 1, 9, kG|kM, fUnowned), world(3, 2, 1, 8, kG|kM, fUnowned), world(3, 1, 1, 8, kG|kM, fHangup), world(3, 1, 1, 8, kG|kM, fDial), world(3, 1, 1, 8, kG|kM, fBackErr), world(3, 1, 1, 7, kG|kM, fLoss), world(3, 1, 1, 7, kG|kM, fTimeout), worldO(3, 1, 1, 7, kM, fUnowned)}
+				return []*JobCfg{world(3, 1, 1, 9, kG|kM, fUnowned), world(3, 2, 1, 8, kG|kM, fUnowned), world(3, 1, 1, 8, kG|kM, fHangup), world(3, 1, 1, 8, kG|kM, fDial), world(3, 1, 1, 8, kG|kM, fBackErr), world(3, 1, 1, 7, kG|kM, fLoss), world(3, 1, 1, 7, kG|kM, fTimeout), worldO(3, 1, 1, 7, kM, fUnowned), world(3, 2, 1, 7, kG|kM, fMulti|fBatch), world(3, 1, 1, 7, kG|kM, fRemove), noMapOrder(job(pkgServer, "HarnessBig", 0, 5000, 20, 256)), noMapOrder(job(pkgServer, "HarnessBig", 0, 17000, 30, 32768)), noMapOrder(job(pkgServer, "HarnessBig", 0, 17000, 17000, 256)), noMapOrder(job(pkgServer, "HarnessBig", 0, 70000, 5000, 65536))}
 			}
-			return []*JobCfg{world(3, 1, 1, 7, kG|kM, fUnowned), world(3, 1, 1, 6, kG|kM, fHangup), world(3, 1, 1, 6, kM, fDial), world(3, 1, 1, 6, kG|kM, fBackErr)}
+			return []*JobCfg{world(3, 1, 1, 7, kG|kM, fUnowned), world(3, 1, 1, 6, kG|kM, fHangup), world(3, 1, 1, 6, kM, fDial), world(3, 1, 1, 6, kG|kM, fBackErr), world(3, 2, 1, 6, kG|kM, fMulti|fBatch), noMapOrder(job(pkgServer, "HarnessBig", 0, 5000, 20, 256)), noMapOrder(job(pkgServer, "HarnessBig", 0, 17000, 30, 32768))}
 		},
 		Bounds: func(tier string) string {
 			return "two clients with 1..2 requests each (GET / two-key MGET, solver-chosen owners and key bytes), every schedule up to 6 (quick) / 8 (thorough) events, with one of: node B's slots unowned, a client disconnecting mid-flight, dialling node B failing; thorough adds backend loss and timeouts"
@@ -278,12 +280,12 @@ func init() {
 	register(&CheckSpec{ID: "C15", Patterns: []string{pkgServer},
 		Jobs: func(tier string) []*JobCfg {
 			if tier == "thorough" {
-				return []*JobCfg{world(15, 2, 0, 8, kG|kM, fLoss), world(15, 2, 0, 7, kG|kM, fLoss|fProbe), world(15, 1, 1, 7, kG|kM, fLoss), world(15, 2, 0, 8, kG|kM, fDial), world(15, 2, 0, 7, kG|kM, fLoss|fSplit), job(pkgServer, "HarnessC13", 0), job(pkgServer, "HarnessC13", 1), world(15, 2, 0, 7, kG|kM, fRemove), world(15, 1, 1, 6, kG|kM, fRemove), world(15, 3, 0, 7, kG|kM, fLoss|fBatch)}
+				return []*JobCfg{world(15, 2, 0, 8, kG|kM, fLoss), world(15, 2, 0, 7, kG|kM, fLoss|fProbe), world(15, 1, 1, 7, kG|kM, fLoss), world(15, 2, 0, 8, kG|kM, fDial), world(15, 2, 0, 7, kG|kM, fLoss|fSplit), job(pkgServer, "HarnessC13", 0, 1), job(pkgServer, "HarnessC13", 1, 1), job(pkgServer, "HarnessC13", 0, 2), world(15, 2, 0, 7, kG|kM, fRemove), world(15, 1, 1, 6, kG|kM, fRemove), world(15, 3, 0, 7, kG|kM, fLoss|fBatch), world(15, 2, 0, 8, kG|kM, fQuiet), world(15, 1, 1, 7, kG|kM, fQuiet|fBatch)}
 			}
-			return []*JobCfg{world(15, 2, 0, 6, kG|kM, fLoss), world(15, 1, 0, 6, kG, fLoss|fProbe), world(15, 2, 0, 6, kG|kM, fDial), job(pkgServer, "HarnessC13", 0), world(15, 2, 0, 5, kG|kM, fRemove), world(15, 2, 0, 6, kG, fLoss|fBatch)}
+			return []*JobCfg{world(15, 2, 0, 6, kG|kM, fLoss), world(15, 1, 0, 6, kG, fLoss|fProbe), world(15, 2, 0, 6, kG|kM, fDial), job(pkgServer, "HarnessC13", 0, 1), world(15, 2, 0, 5, kG|kM, fRemove), world(15, 2, 0, 6, kG, fLoss|fBatch), world(15, 2, 0, 6, kG|kM, fQuiet)}
 		},
 		Bounds: func(tier string) string {
-			return "pipelines of 2 requests (GET / two-key MGET), a backend connection lost at ANY point of every schedule up to 6/8 events (before the request is written, after it, after other replies), or dialling a node failing, or a redirect naming an unknown node; at quiescence every request is answered or its client closed"
+			return "pipelines of 2 requests (GET / two-key MGET), a backend connection lost at ANY point of every schedule up to 6/8 events (before the request is written, after it, after other replies; noticed by reading EOF or only by the next write failing), or node B removed from the topology by the ticker (slots unowned or taken over), or dialling a node failing, or a redirect naming an unknown node; at quiescence every request is answered or its client closed"
 		},
 		Assumptions: []string{worldAssume, "'lost' = the backend closes its end and the proxy reads EOF"}, Stubs: []string{stubWorld},
 		Outside: []string{"loss in the middle of a reply's bytes, node removal by the topology ticker, write errors other than EOF"}})
@@ -301,10 +303,10 @@ func init() {
 		Outside: []string{"real time, the 200 ms epoll cadence, several separate timeouts in one run"}})
 	register(&CheckSpec{ID: "C13", Patterns: []string{pkgServer},
 		Jobs: func(tier string) []*JobCfg {
-			return []*JobCfg{job(pkgServer, "HarnessC13", 0), job(pkgServer, "HarnessC13", 1)}
+			return []*JobCfg{job(pkgServer, "HarnessC13", 0, 1), job(pkgServer, "HarnessC13", 1, 1), job(pkgServer, "HarnessC13", 0, 2), job(pkgServer, "HarnessC13", 1, 2)}
 		},
 		Bounds: func(tier string) string {
-			return "one redirect step: solver-chosen kind (MOVED/ASK), known or unknown target, single-key request or fragment of a split MGET, first or second position in a two-request pipeline, other node answering before or after"
+			return "one redirect step: solver-chosen kind (MOVED/ASK), known or unknown target, single-key request or fragment of a split MGET, first or second position in a two-request pipeline, other node answering before or after; one or two connections per backend node"
 		},
 		Assumptions: []string{"termination is claimed per redirect step (the proxy has no hop limit)"}, Stubs: []string{stubWorld},
 		Outside: []string{"chains of redirects, redirects arriving while the target connection is being dialled unsuccessfully"}})
@@ -399,6 +401,11 @@ func init() {
 			js = append(js, job(pkgServer, "HarnessC02Rsp", 3, 1, 0), job(pkgServer, "HarnessC02Rsp", 7, 2, 0), job(pkgServer, "HarnessC02Rsp", 8, 0, 3), job(pkgServer, "HarnessC02Rsp", 3, 0, 1))
 			js = append(js, job(pkgServer, "HarnessC02Slow", 4), job(pkgServer, "HarnessC02Slow", 8))
 			if tier == "thorough" {
+				js = append(js, noMapOrder(job(pkgServer, "HarnessBig", 0, 5000, 20, 256)), noMapOrder(job(pkgServer, "HarnessBig", 0, 17000, 30, 32768)), noMapOrder(job(pkgServer, "HarnessBig", 0, 17000, 17000, 256)), noMapOrder(job(pkgServer, "HarnessBig", 0, 70000, 5000, 65536)), noMapOrder(job(pkgServer, "HarnessBig", 1, 9000, 0, 256)), noMapOrder(job(pkgServer, "HarnessBig", 1, 17000, 0, 32768)), noMapOrder(job(pkgServer, "HarnessBig", 1, 70000, 0, 65536)))
+			} else {
+				js = append(js, noMapOrder(job(pkgServer, "HarnessBig", 0, 5000, 20, 256)), noMapOrder(job(pkgServer, "HarnessBig", 0, 17000, 30, 32768)), noMapOrder(job(pkgServer, "HarnessBig", 1, 9000, 0, 256)))
+			}
+			if tier == "thorough" {
 				for shape := int64(0); shape <= 9; shape++ {
 					js = append(js, job(pkgServer, "HarnessC02Rsp", shape, 1, 2))
 				}
@@ -430,6 +437,19 @@ func init() {
 				}
 			}
 			js = append(js, job(pkgRing, "HarnessC19Ring", 4, 2, -1), job(pkgRing, "HarnessC19Ring", 4, 1, -1))
+			// capacities above the 4 KiB growth threshold are not powers of two (4096 -> 5120 -> 6400 -> 8000)
+			bigSizes := []int64{5120}
+			if tier == "thorough" {
+				bigSizes = []int64{5120, 6400, 8000}
+			}
+			for _, sz := range bigSizes {
+				for op := int64(0); op <= 3; op++ {
+					for _, n := range []int64{1, 1024, 4097} {
+						js = append(js, job(pkgRing, "HarnessC19Ring", sz, op, n))
+					}
+				}
+				js = append(js, job(pkgRing, "HarnessC19Ring", sz, 5, 0), job(pkgRing, "HarnessC19Ring", sz, 4, 0))
+			}
 			js = append(js, job(pkgRing, "HarnessC19Grow", 4096, 100, 4000, 200), job(pkgRing, "HarnessC19Grow", 4096, 0, 4096, 1), job(pkgRing, "HarnessC19Grow", 1024, 1000, 600, 5000), job(pkgRing, "HarnessC19Grow", 8192, 8000, 500, 3000))
 			for k := int64(0); k <= 2; k++ {
 				for op := int64(0); op <= 6; op++ {
@@ -467,35 +487,36 @@ func init() {
 			return js
 		},
 		Bounds: func(tier string) string {
-			return "ONE operation from ANY valid state (inductive step): ring of 0/2/4(/8) bytes in every read/write position, empty or not, arbitrary contents, operation sizes 0..size+2 (growth included) and negative; list of 0..2 nodes of 1..3 bytes; composite of ring + list with static limit 2/4/8; real grow() across the 4 KiB threshold at four concrete geometries"
+			return "ONE operation from ANY valid state (inductive step): ring of 0/2/4(/8) bytes in every read/write position, empty or not, arbitrary contents, operation sizes 0..size+2 (growth included) and negative; list of 0..2 nodes of 1..3 bytes; composite of ring + list with static limit 2/4/8; real grow() across the 4 KiB threshold at four concrete geometries; rings of 5120 (thorough: 6400, 8000) bytes - the capacities growth produces above 4 KiB, which are not powers of two - with read/write positions at the edges, around 1 KiB and around 4 KiB, operation sizes 1 / 1024 / 4097"
 		},
 		Assumptions: []string{"representation invariants stated in the harness (ring: positions in range, len(buf)==size, empty implies r==w; list: size/bytes/tail consistent, no empty node); because each step re-establishes them, histories of any length over these sizes are covered"},
 		Stubs:       []string{"byteslice pool = LIFO per size class with stale contents"},
 		Outside:     []string{"contents of rings larger than 8 bytes (only grow() is run at 1-8 KiB), ReadFrom/WriteTo/CopyFromSocket (unused by the proxy)"}})
 	register(&CheckSpec{ID: "C14", Patterns: []string{pkgCore}, AllowBlocked: true,
 		Jobs: func(tier string) []*JobCfg {
-			js := []*JobCfg{noMapOrder(job(pkgCore, "HarnessC14Loop")), noMapOrder(job(pkgCore, "HarnessC14Parse")), noMapOrder(job(pkgCore, "HarnessC14Ticker")), noMapOrder(job(pkgCore, "HarnessC14History", 5, 3))}
+			js := []*JobCfg{noMapOrder(job(pkgCore, "HarnessC14Loop")), noMapOrder(job(pkgCore, "HarnessC14Parse")), noMapOrder(job(pkgCore, "HarnessC14Ticker")), noMapOrder(job(pkgCore, "HarnessC14History", 5, 3)), noMapOrder(job(pkgCore, "HarnessC14Bunched", 3, 3))}
 			if tier == "thorough" {
-				js = append(js, noMapOrder(job(pkgCore, "HarnessC14History", 5, 4)), noMapOrder(job(pkgCore, "HarnessC14History", 6, 3)))
+				js = append(js, noMapOrder(job(pkgCore, "HarnessC14History", 5, 4)), noMapOrder(job(pkgCore, "HarnessC14History", 6, 3)), noMapOrder(job(pkgCore, "HarnessC14Bunched", 4, 4)))
 			}
 			return js
 		},
 		Bounds: func(tier string) string {
-			return "(a) refresh loop: one unusable probe reply of 6 classes (status, nil, error with arbitrary code, too few nodes, arbitrary 4-byte text, arbitrary 2-byte status) followed by a valid one; (b) node filter: role x every subset/placement of {myself, fail?, fail, handshake, noaddr} x link state x INFO loading/master_link answers; (c) slot table rebuild with the last range end in {16383, 16000, 16384, 20000, 5460} and an arbitrary probe slot; (d) every history of 5 (thorough 6) successive valid replies chosen among steady state / fail-over / fail-back as replica / resharding, with a ticker run after each: table, replica sets and pools describe the latest reply"
+			return "(a) refresh loop: one unusable probe reply of 6 classes (status, nil, error with arbitrary code, too few nodes, arbitrary 4-byte text, arbitrary 2-byte status) followed by a valid one; (b) node filter: role x every subset/placement of {myself, fail?, fail, handshake, noaddr} x link state x INFO loading/master_link answers; (c) slot table rebuild with the last range end in {16383, 16000, 16384, 20000, 5460} and an arbitrary probe slot; (d) every history of 5 (thorough 6) successive valid replies chosen among steady state / fail-over / fail-back as replica / resharding, with a ticker run after each: table, replica sets and pools describe the latest reply; (e) histories of 3 (thorough 4) replies that may bunch up (the ticker runs or does not run between two replies, solver's choice), after which the cluster is stable (the last description is repeated, the ticker runs): the table describes the last one"
 		},
 		Assumptions: []string{"INFO answers come from a fake RedisWrapper; cornelk/hashmap is modelled as an ideal map; the refresh goroutine body is run to its next blocking receive", "map iteration order not explored here"},
 		Stubs:       []string{stubWorld, "hashmap.HashMap = ideal map", "context.WithCancel = no-op"},
 		Outside:     []string{"the unsynchronised sharing of ClusterNodes between the refresh goroutine and the event loop, real INFO dialling, 'within a few seconds', change detection over arbitrary histories"}})
 	register(&CheckSpec{ID: "C18", Patterns: []string{pkgServer, pkgAuthip},
 		Jobs: func(tier string) []*JobCfg {
-			js := []*JobCfg{noMapOrder(job(pkgAuthip, "HarnessC18", 1)), noMapOrder(job(pkgAuthip, "HarnessC18", 2)), noMapOrder(job(pkgServer, "HarnessC18Admit"))}
+			js := []*JobCfg{noMapOrder(job(pkgAuthip, "HarnessC18", 1, 0)), noMapOrder(job(pkgAuthip, "HarnessC18", 2, 0)), noMapOrder(job(pkgAuthip, "HarnessC18", 1, 1)),
+				noMapOrder(job(pkgAuthip, "HarnessC18", 2, 2)), noMapOrder(job(pkgAuthip, "HarnessC18", 2, 1)), noMapOrder(job(pkgServer, "HarnessC18Admit"))}
 			if tier == "thorough" {
-				js = append(js, noMapOrder(job(pkgAuthip, "HarnessC18", 3)))
+				js = append(js, noMapOrder(job(pkgAuthip, "HarnessC18", 3, 0)), noMapOrder(job(pkgAuthip, "HarnessC18", 3, 3)), noMapOrder(job(pkgAuthip, "HarnessC18", 3, 2)))
 			}
 			return js
 		},
 		Bounds: func(tier string) string {
-			return "every history of 1..2 (thorough 3) rewrites of the whitelist file over {enable on/off} x {every subset of 3 addresses}, then admission of each address; connection admission for 4 source addresses with the real OnCOpened/closeConn"
+			return "every history of 1..2 (thorough 3) rewrites of the whitelist file over {enable on/off} x {every subset of 3 addresses}, one rewrite of each history optionally written as three lines each empty or any of the addresses (duplicate lines), then admission of each address; connection admission for 4 source addresses with the real OnCOpened/closeConn"
 		},
 		Assumptions: []string{"the file watcher is replaced by calling parseAuthIp directly; yaml.Unmarshal reads the canonical documents the harness writes; cornelk/hashmap is modelled as an ideal map"},
 		Stubs:       []string{stubWorld, "hashmap.HashMap = ideal map", "yaml.Unmarshal = reader of canonical documents", "ioutil.ReadFile = in-memory file table"},
